@@ -11,7 +11,11 @@ use crate::snk::*;
 use crate::sym::{any, assume};
 use crate::{cov, harness};
 
-const R: usize = 12; // retry bound: all scripted pendings of all downstreams (<= 2*3 + 2*3) + slack < 12
+/// retry bound of the caller loops: every `Pending` an upstream poll returns consumes one scripted
+/// pending of some downstream (n ready + n finalize pendings each), so `pendings + 1` polls suffice
+const fn r(n: usize, downstreams: usize) -> usize {
+    2 * n * downstreams + 2
+}
 
 fn items3() -> [u8; 3] {
     [any(), any(), any()]
@@ -26,17 +30,17 @@ fn seq_of<T: Copy + Default + PartialEq>(xs: &[T]) -> Seq<T> {
     s
 }
 
-harness!(c12_map, 14, {
+harness!(c12_map, 10, {
     let xs = items3();
     let mut d = Snk::<u8, 3>::sym();
-    feed(pin!(push::map(|x: u8| x.wrapping_mul(5), &mut d)).as_mut(), &xs, R);
+    feed(pin!(push::map(|x: u8| x.wrapping_mul(5), &mut d)).as_mut(), &xs, r(3, 1));
     d.check(&seq_of(&[xs[0].wrapping_mul(5), xs[1].wrapping_mul(5), xs[2].wrapping_mul(5)]));
     cov!(d.ready_pendings_seen >= 2 && d.fin_pendings_seen >= 1, "pendings on ready and finalize");
 });
-harness!(c12_filter, 14, {
+harness!(c12_filter, 10, {
     let xs = items3();
     let mut d = Snk::<u8, 3>::sym();
-    feed(pin!(push::filter(|x: &u8| x & 1 == 0, &mut d)).as_mut(), &xs, R);
+    feed(pin!(push::filter(|x: &u8| x & 1 == 0, &mut d)).as_mut(), &xs, r(3, 1));
     let mut w = Seq::new();
     for x in xs {
         if x & 1 == 0 {
@@ -46,10 +50,10 @@ harness!(c12_filter, 14, {
     d.check(&w);
     cov!(w.len == 1 && d.ready_pendings_seen >= 1, "one passes, with a pending");
 });
-harness!(c12_filter_map, 14, {
+harness!(c12_filter_map, 10, {
     let xs = items3();
     let mut d = Snk::<u8, 3>::sym();
-    feed(pin!(push::filter_map(|x: u8| if x > 100 { Some(x - 100) } else { None }, &mut d)).as_mut(), &xs, R);
+    feed(pin!(push::filter_map(|x: u8| if x > 100 { Some(x - 100) } else { None }, &mut d)).as_mut(), &xs, r(3, 1));
     let mut w = Seq::new();
     for x in xs {
         if x > 100 {
@@ -59,11 +63,11 @@ harness!(c12_filter_map, 14, {
     d.check(&w);
     cov!(w.len == 2, "two pass");
 });
-harness!(c12_inspect, 14, {
+harness!(c12_inspect, 10, {
     let xs = items3();
     let mut d = Snk::<u8, 3>::sym();
     let seen = Cell::new(Seq::<u8>::new());
-    feed(pin!(push::inspect(|x: &u8| { let mut s = seen.get(); s.push(*x); seen.set(s); }, &mut d)).as_mut(), &xs, R);
+    feed(pin!(push::inspect(|x: &u8| { let mut s = seen.get(); s.push(*x); seen.set(s); }, &mut d)).as_mut(), &xs, r(3, 1));
     d.check(&seq_of(&xs));
     let s = seen.get();
     assert!(s.len == 3 && s.get(0) == xs[0] && s.get(1) == xs[1] && s.get(2) == xs[2], "C12 inspect closure not called once per item in order");
@@ -78,10 +82,10 @@ harness!(c12_for_each, 8, {
     cov!(true, "reached end");
 });
 // flat_map: the buffered item must survive downstream Pendings (two inputs, 0..=2 outputs each)
-harness!(c12_flat_map, 14, {
+fn flat_map_check<const N: usize>() {
     let xs: [u8; 2] = [any(), any()];
-    let mut d = Snk::<u8, 3>::sym();
-    feed(pin!(push::flat_map(|x: u8| (0..(x % 3)).map(move |j| x.wrapping_add(j)), &mut d)).as_mut(), &xs, R);
+    let mut d = Snk::<u8, N>::sym();
+    feed(pin!(push::flat_map(|x: u8| (0..(x % 3)).map(move |j| x.wrapping_add(j)), &mut d)).as_mut(), &xs, r(N, 1));
     let mut w = Seq::new();
     for x in xs {
         let mut j = 0;
@@ -93,27 +97,35 @@ harness!(c12_flat_map, 14, {
     d.check(&w);
     cov!(w.len == 4 && d.ready_pendings_seen >= 2, "four outputs across two pendings");
     cov!(w.len == 0, "nothing produced");
-});
-harness!(c12_flatten, 14, {
+}
+//@ heavy=1
+harness!(c12_flat_map, 8, { flat_map_check::<2>(); });
+//@ heavy=1 tier=thorough
+harness!(c12_flat_map_3, 10, { flat_map_check::<3>(); });
+fn flatten_check<const N: usize>() {
     let xs: [[u8; 2]; 2] = [[any(), any()], [any(), any()]];
-    let mut d = Snk::<u8, 3>::sym();
-    feed(pin!(push::flatten::<[u8; 2], (), _>(&mut d)).as_mut(), &xs, R);
+    let mut d = Snk::<u8, N>::sym();
+    feed(pin!(push::flatten::<[u8; 2], (), _>(&mut d)).as_mut(), &xs, r(N, 1));
     d.check(&seq_of(&[xs[0][0], xs[0][1], xs[1][0], xs[1][1]]));
     cov!(d.ready_pendings_seen >= 2, "two pendings");
-});
-harness!(c12_fanout, 16, {
+}
+//@ heavy=1
+harness!(c12_flatten, 8, { flatten_check::<2>(); });
+//@ heavy=1 tier=thorough
+harness!(c12_flatten_3, 10, { flatten_check::<3>(); });
+harness!(c12_fanout, 12, {
     let xs: [u8; 2] = [any(), any()];
     let (mut a, mut b) = (Snk::<u8, 2>::sym(), Snk::<u8, 2>::sym());
-    feed(pin!(push::fanout(&mut a, &mut b)).as_mut(), &xs, R);
+    feed(pin!(push::fanout(&mut a, &mut b)).as_mut(), &xs, r(2, 2));
     a.check(&seq_of(&xs));
     b.check(&seq_of(&xs));
     cov!(a.ready_pendings_seen >= 1 && b.ready_pendings_seen >= 1 && a.fin_pendings_seen >= 1, "pendings on both downstreams");
     cov!(a.polls_after_finalize > 0 || b.polls_after_finalize > 0, "O1: a finalized downstream is re-polled while its sibling is pending");
 });
-harness!(c12_unzip, 16, {
+harness!(c12_unzip, 12, {
     let xs: [(u8, u16); 2] = [(any(), any()), (any(), any())];
     let (mut a, mut b) = (Snk::<u8, 2>::sym(), Snk::<u16, 2>::sym());
-    feed(pin!(push::unzip(&mut a, &mut b)).as_mut(), &xs, R);
+    feed(pin!(push::unzip(&mut a, &mut b)).as_mut(), &xs, r(2, 2));
     a.check(&seq_of(&[xs[0].0, xs[1].0]));
     b.check(&seq_of(&[xs[0].1, xs[1].1]));
     cov!(a.ready_pendings_seen >= 1 && b.fin_pendings_seen >= 1, "pendings on both downstreams");
@@ -125,7 +137,7 @@ harness!(c12_demux_var, 16, {
     assume(i0 < 3 && i1 < 3 && i2 < 3);
     let xs: [(usize, u8); 3] = [(i0, any()), (i1, any()), (i2, any())];
     let (mut a, mut b, mut c) = (Snk::<u8, 2>::sym(), Snk::<u8, 2>::sym(), Snk::<u8, 2>::sym());
-    feed(pin!(push::demux_var((&mut a, (&mut b, (&mut c, ()))))).as_mut(), &xs, R + 6);
+    feed(pin!(push::demux_var((&mut a, (&mut b, (&mut c, ()))))).as_mut(), &xs, r(2, 3));
     let mut w = [Seq::<u8>::new(), Seq::new(), Seq::new()];
     for (i, x) in xs {
         w[i].push(x);
@@ -135,19 +147,19 @@ harness!(c12_demux_var, 16, {
     c.check(&w[2]);
     cov!(w[1].len == 2 && w[2].len == 1 && b.ready_pendings_seen >= 1, "routing to two outputs with a pending");
 });
-harness!(c12_fold, 14, {
+harness!(c12_fold, 10, {
     let xs = items3();
     let mut d = Snk::<u32, 3>::sym();
-    feed(pin!(push::fold::<u32, _, u32, u8, _>(7u32, |acc: &mut u32, x: u8| *acc += x as u32, &mut d)).as_mut(), &xs, R);
+    feed(pin!(push::fold::<u32, _, u32, u8, _>(7u32, |acc: &mut u32, x: u8| *acc += x as u32, &mut d)).as_mut(), &xs, r(3, 1));
     d.check(&seq_of(&[7 + xs[0] as u32 + xs[1] as u32 + xs[2] as u32]));
     cov!(d.ready_pendings_seen >= 2 && d.fin_pendings_seen >= 1, "result held across pendings");
 });
-harness!(c12_reduce, 14, {
+harness!(c12_reduce, 10, {
     let n: usize = any();
     assume(n <= 3);
     let xs = items3();
     let mut d = Snk::<u8, 3>::sym();
-    feed(pin!(push::reduce(None, |acc: &mut u8, x: u8| *acc = (*acc).max(x), &mut d)).as_mut(), &xs[..n], R);
+    feed(pin!(push::reduce(None, |acc: &mut u8, x: u8| *acc = (*acc).max(x), &mut d)).as_mut(), &xs[..n], r(3, 1));
     let mut w = Seq::new();
     if n > 0 {
         let mut m = xs[0];
@@ -163,12 +175,12 @@ harness!(c12_reduce, 14, {
     cov!(n == 3 && d.ready_pendings_seen >= 1, "three inputs");
 });
 // fanout whose first branch accumulates: a re-poll after Done must not duplicate the result (O1 guard)
-harness!(c12_fanout_of_fold, 16, {
+harness!(c12_fanout_of_fold, 12, {
     let xs: [u8; 2] = [any(), any()];
     let (mut a, mut b) = (Snk::<u32, 2>::sym(), Snk::<u8, 2>::sym());
     {
         let f = push::fold::<u32, _, u32, u8, _>(0u32, |acc: &mut u32, x: u8| *acc += x as u32, &mut a);
-        feed(pin!(push::fanout(f, &mut b)).as_mut(), &xs, R);
+        feed(pin!(push::fanout(f, &mut b)).as_mut(), &xs, r(2, 2));
     }
     a.check(&seq_of(&[xs[0] as u32 + xs[1] as u32]));
     b.check(&seq_of(&xs));
